@@ -373,6 +373,25 @@ example : hygB [wA1, wE1] [{ name := "t.shootnew.e.go", defs := [("EGetter", {})
 example : (generate (mapMachine codeToday) [] [wMA, wMB]).map (·.2.toCtor) = [some ["ID", "Name"], none] ∧
     (generate (mapMachine codeBeforeFix) [] [wMA, wMB]).map (·.2.toCtor) = [some ["ID", "Name"], some ["ID", "Name"]] := by decide
 
+def wTagA : MType :=
+  { name := "Article", src := { fields := ["ID", "Name"] }, dest := some { fields := ["ID", "Title"] }, tags := [("Name", "Title")] }
+def wTagB : MType :=
+  { name := "Author", src := { fields := ["ID", "Name"] }, dest := some { fields := ["ID", "Name", "Title"] } }
+
+/-- `C08_run_map` with `map:"…"` tags: `Article{Name string `map:"Title"`}` then `Author{Name string}` - the rename belongs to
+    Article alone, Author copies Name to Name, in both orders.  With a tag map that is kept from type to type (`mapTag`: what a
+    change that stops re-making `srcTagMap` for every type would do) Author.Name would be wired to Author.Title whenever Article
+    comes first - and not when it comes last -/
+example :
+    (generate (mapMachine codeToday) [] [wTagA, wTagB]).map (·.2.toWrites)
+      = [[("ID", "ID"), ("Title", "Name")], [("ID", "ID"), ("Name", "Name")]] ∧
+    (generate (mapMachine codeToday) [] [wTagB, wTagA]).map (·.2.toWrites)
+      = [[("ID", "ID"), ("Name", "Name")], [("ID", "ID"), ("Title", "Name")]] ∧
+    (generate (mapMachine { codeToday with mapTag := true }) [] [wTagA, wTagB]).map (·.2.toWrites)
+      = [[("ID", "ID"), ("Title", "Name")], [("ID", "ID"), ("Title", "Name")]] ∧
+    (generate (mapMachine { codeToday with mapTag := true }) [] [wTagB, wTagA]).map (·.2.toWrites)
+      = [[("ID", "ID"), ("Name", "Name")], [("ID", "ID"), ("Title", "Name")]] := by decide
+
 def xf1 : File :=
   { pkg := "a", comments := [⟨0, 40, "Code generated"⟩, ⟨70, 90, "NewA constructs"⟩, ⟨150, 160, "noop"⟩],
     imports := [{ path := "\"time\"" }], decls := [⟨true, 52, 65, "import \"time\"", none⟩, ⟨false, 91, 120, "func NewA()", some 70⟩, ⟨false, 130, 170, "func (a A) ShootNew()", none⟩] }
